@@ -524,8 +524,15 @@ class Parser:
         # extracted on the way (\footnote, ...) must not be kept, the caller
         # may expand the same tokens again for the output
         n_extr = len(self.extracted)
+        # likewise, the rotation of maths placeholders must not advance
+        settings = list(self.parms.parser_lang_settings.values())
+        repls = [(s.math_repl_inline[:], s.math_repl_display[:])
+                                                    for s in settings]
         toks = self.expand_sequence(scanner.Buffer(toks.copy()))
         del self.extracted[n_extr:]
+        for s, (inline, display) in zip(settings, repls):
+            s.math_repl_inline[:] = inline
+            s.math_repl_display[:] = display
         return self.get_text_direct(toks)
 
     #   remove all blank text lines, which contain at least one ActionToken
